@@ -109,7 +109,7 @@ def run(ctx):
     from auth.auth_utils import is_valid_username, validate_credentials_secret_name_input
     from auth.exceptions import AuthUserError
 
-    full, core = (4, 7) if ctx.quick else (5, 9)
+    full, core = (4, 7) if ctx.quick else (5, 8)     # TLC refuses sets of more than 10^6 elements: 5^9 core words are too many
     wd = tlc.prepare_dir(ctx.build / "tlc", ["fn"])
     inputs = wd / "inputs.ndjson"
     env = {"NL_FULL": full, "NL_CORE": core, "NL_INPUTS": inputs, "NL_CASES": wd / "cases.ndjson", "NL_VERDICT": wd / "verdict.json"}
@@ -132,7 +132,7 @@ def run(ctx):
         except AuthUserError:
             sec = False
         c = {"w": w, "s": s, "user": u, "secret": sec}
-        if len(seen) % (4 if ctx.quick else 1) == 0 or len(w) <= 3:
+        if len(seen) % (4 if ctx.quick else 2) == 0 or len(w) <= 3:
             c["ins"] = inserter(s)
         cases.append(c)
 
